@@ -172,11 +172,11 @@ def check(case, out):
             vals, V = np.asarray(e).reshape(1), None
             k = 1
             which = "LM" if fn == "eigmax" else "SM"
-    except AssertionError as e:
-        out.refusals += 1
-        out.notes.append("refusal:" + oracle.exc_bucket(e)[1])
-        return
     except Exception as e:
+        if oracle.is_contract_refusal(e):
+            out.refusals += 1
+            out.notes.append("refusal:" + oracle.exc_bucket(e)[1])
+            return
         out.fail("call", site, oracle.exc_man(e), e)
         return
     vals = np.asarray(vals).reshape(-1)
